@@ -181,6 +181,9 @@ func RunC14(h *MSHist, r *sim.Rand, rep Reporter) {
 			if qh < 0 {
 				qh = 0
 			}
+			if r.Chance(4) {
+				qh = -1 - int64(r.Intn(3)) // a height that never existed
+			}
 			prove := r.Bool()
 			var res abci.ResponseQuery
 			req := abci.RequestQuery{Path: "/" + store + "/key", Data: key, Height: qh, Prove: prove}
@@ -209,6 +212,9 @@ func RunC14(h *MSHist, r *sim.Rand, rep Reporter) {
 			}
 			class := "retained"
 			switch {
+			case eff < 0:
+				class = "future" // nothing was ever committed at a negative height: no value, no proof
+				rep.Count("c14.queries.negative_height", 1)
 			case eff > latest:
 				class = "future"
 			case !Retained(eff, latest, h.Pruning):
